@@ -46,6 +46,7 @@ var shapes = map[string]shape{
 	"e": {1, false, []int{2}, []bool{true}},
 	"f": {2, true, []int{1}, []bool{true}},
 	"g": {1, false, []int{1, 2}, []bool{false, false}},
+	"h": {2, false, []int{1, 2, 1}, []bool{false, false, false}}, // the same data id twice in one chunk, full form
 }
 
 type params struct {
@@ -55,9 +56,13 @@ type params struct {
 	Predecl bool // D2 pre-registered with WithDownstreamDataIDs
 	F       int  // link failures (C04 thorough)
 	P       int
+	Stream  bool // a reader thread consumes while the broker keeps sending at intervals (early timer firing allowed: T=1)
 }
 
 func (p params) name() string {
+	if p.Stream {
+		return fmt.Sprintf("stream-%s/P%d", strings.Join(p.Seq, ""), p.P)
+	}
 	return fmt.Sprintf("%s/q%d/u%v/pre%v/F%d/P%d", strings.Join(p.Seq, ""), p.QoS, p.Unrel, p.Predecl, p.F, p.P)
 }
 
@@ -105,6 +110,10 @@ func scenarios(tier string) []vlib.Scenario {
 		add(params{Seq: s, QoS: message.QoSReliable})
 	}
 	add(params{Seq: []string{"a", "M1", "b", "M2"}, QoS: message.QoSReliable})
+	for _, sq := range [][]string{{"h"}, {"h", "b"}, {"a", "h"}, {"h", "h"}, {"c", "h", "f"}} {
+		add(params{Seq: sq, QoS: message.QoSReliable})
+	}
+	add(params{Seq: []string{"a", "c"}, QoS: message.QoSReliable, P: 1, Stream: true})
 	add(params{Seq: []string{"a", "a", "b"}, QoS: message.QoSReliable, P: 1})
 	add(params{Seq: []string{"a", "c", "f"}, QoS: message.QoSReliable, P: 1})
 	if tier == "thorough" {
@@ -128,8 +137,16 @@ func config(sc vlib.Scenario, tier string) vsched.Config {
 	cfg := vsched.Config{Preempt: 1, Switch: 1, SelCase: 1, Stall: 1, Timer: -1, Horizon: 120 * time.Second, MaxSteps: 600000}
 	cfg.Budget[vsched.BudP] = p.P
 	cfg.Budget[vsched.BudF] = p.F
+	if p.Stream {
+		cfg.Timer = 1
+		cfg.Budget[vsched.BudT] = 1
+	}
 	cfg.Scope = func(site string) bool {
-		return strings.Contains(site, "iscp.(*Downstream)") || strings.Contains(site, "readDownstream") || strings.Contains(site, "subscribeDownstreamMetadata")
+		if site == "h:stream-gap" {
+			return true
+		}
+		// h:write:client = the client's transport write (a slow broker / back pressure is a stall at that point)
+		return strings.Contains(site, "iscp.(*Downstream)") || strings.Contains(site, "readDownstream") || strings.Contains(site, "subscribeDownstreamMetadata") || strings.HasPrefix(site, "h:write:client")
 	}
 	return cfg
 }
@@ -305,6 +322,34 @@ func (w *world) main() {
 		return
 	}
 	w.Phase = "run"
+	if w.p.Stream {
+		// the broker keeps sending at intervals while a reader thread consumes
+		var wg vsched.WaitGroup
+		wg.Add(1)
+		n := len(w.p.Seq)
+		vsched.Go("h:stream-reader", func() {
+			defer wg.Done()
+			for i := 0; i < n; i++ {
+				w.readOne("chunk")
+			}
+		})
+		for i, name := range w.p.Seq {
+			w.sendItem(i, name)
+			vsched.Sleep(150*time.Millisecond, "h:stream-gap")
+		}
+		wg.Wait()
+		w.Phase = "close"
+		cctx, ccancel := kit.Ctx(10 * time.Second)
+		w.closeErr = w.Downs[0].D.Close(cctx)
+		ccancel()
+		vsched.Quiesce()
+		xctx, xcancel := kit.Ctx(5 * time.Second)
+		w.Conn.Close(xctx)
+		xcancel()
+		w.B.Stop()
+		w.Phase = "done"
+		return
+	}
 	var deferred []string
 	for i, name := range w.p.Seq {
 		kind := "chunk"
